@@ -582,6 +582,10 @@ static void bufr_merge_tableD ( EntryTableDArray table1, EntryTableDArray table2
             {
             e1 = bufr_new_EntryTableD( e2->descriptor, e2->description, len2, e2->descriptors, e2->count );
             arr_add( table1, (char *)&e1 );
+/*
+ * bufr_tabled_fetch_entry() is a binary search: keep table1 in order for the next entries
+ */
+            arr_sort( table1, compare_tabled );
             }
          }
       }
@@ -620,6 +624,10 @@ static void bufr_merge_tableB ( EntryTableBArray table1, EntryTableBArray table2
             e1 = bufr_new_EntryTableB();
             bufr_copy_EntryTableB( e1, e2 );
             arr_add( table1, (char *)&e1 );
+/*
+ * bufr_tableb_fetch_entry() is a binary search: keep table1 in order for the next entries
+ */
+            arr_sort( table1, compare_tableb );
             }
          }
       }
